@@ -39,7 +39,11 @@ pub struct LazyFunctions {
 
 impl LazyFunctions {
     pub fn get(&self) -> std::sync::MutexGuard<'_, Option<FunctionsStore>> {
+        #[cfg(feature = "verif_hooks")]
+        crate::verif_hooks::point("functions.get.enter");
         self.init.call_once(|| {
+            #[cfg(feature = "verif_hooks")]
+            crate::verif_hooks::point("functions.init.begin");
             let m = FunctionsStore::new([
                 ADD,
                 SUB,
@@ -47,7 +51,11 @@ impl LazyFunctions {
                 DIV,
             ]);
             *self.data.lock().unwrap() = Some(m);
+            #[cfg(feature = "verif_hooks")]
+            crate::verif_hooks::point("functions.init.end");
         });
+        #[cfg(feature = "verif_hooks")]
+        crate::verif_hooks::point("functions.get.before_lock");
         self.data.lock().unwrap()
     }
 }
